@@ -104,7 +104,11 @@ def check_solution(res, year, sol, label, rp):
             if val > 0:
                 res.distinct.add(f'{year}|pos|{base}.{line}')
             if val < -1e-9:
-                V('negative', f'{base}.{line}', f'{key} = {val} is negative')
+                mech = ''
+                if (base, line) in (('1040_s8812', '14'), ('1040_s8812', '13'), ('1040', '19'), ('1040_s8812', 'nonrefundable_ctc_or_odc'), ('1040_s8812', '14c'), ('1040_s8812', '14d'), ('1040_s8812', '14h')) \
+                        and g('1040_s3.1') > g('1040.18') + 0.005:
+                    mech = '|ftc-exceeds-tax'      # mechanism: foreign tax credit larger than the tax (known finding)
+                V('negative', f'{base}.{line}{mech}', f'{key} = {val} is negative' + (f' (Schedule 3 line 1 = {g("1040_s3.1")} exceeds the tax on line 18 = {g("1040.18")})' if mech else ''))
     # allowed ratio
     for who in ('you', 'spouse'):
         k = f'8606:{who}.10'
